@@ -9,4 +9,19 @@ PROPS = {
         "trusted": ["isValidPart/isValidPath are observed through res.Call / res.NewMux panics"],
         "assumptions": ["Go strings are modelled as lists of byte values; range-over-string rune decoding only matters for bytes >= 0x80, which every validator rejects"],
     },
+    "C06": {
+        "streams": [{"domain": "mux"}],
+        "require_tags": ["get-found", "get-found-params", "get-found-ls", "get-nil", "handle-ok", "handle-panic",
+                         "listen-ok", "mount-ok", "mount-panic", "validate-ok", "validate-err"],
+        "trusted": ["handler identity is observed through a marker key in Handler.Call; listener identity by calling the listener"],
+        "assumptions": ["configurations with a listener on a pattern without handler are rejected by Serve (ValidateListeners) and are outside the specification",
+                        "cyclic mounts are not generated"],
+    },
+    "C09": {
+        "streams": [{"domain": "subs"}],
+        "require_tags": ["serve-all-default", "serve-pruned-default", "serve-pruned-explicit", "serve-all-explicit",
+                         "serve-none-default", "serve-all-default-noname"],
+        "trusted": ["recording connection (harness/internal/recconn) validates subjects like nats.go"],
+        "assumptions": ["explicit ownership entries are valid resource patterns"],
+    },
 }
